@@ -475,6 +475,7 @@ func VH_C02_final_keys_are_direction_separated() {
 // panic, and the other peers' state is left alone.
 //
 //verif:prop C10
+//verif:replay none
 //verif:stub time.Now = hsNow
 //verif:stub crypto/rand.Read = hsRandRead
 //verif:bounds datagram of symbolic length 0..1700 inside the 65535-byte receive buffer, type byte fully symbolic, certificate-length field from {0,12,255}, all other bytes symbolic; discoverable or hidden server with 1..2 certificates (with/without KEM key); one pending handshake (another address) and one session; all crypto outputs fresh (an unauthenticated sender may be lucky)
@@ -482,6 +483,7 @@ func VH_C02_final_keys_are_direction_separated() {
 //verif:timeout 900
 func VH_C10_server_readpacket_any_datagram() {
 	hsReset()
+	hsAvoidSIDs = nil
 	hidden := verifBool("hidden-mode")
 	s, u := hsServer(hidden)
 	nc := verifPick("certificates", 1, 2)
@@ -492,14 +494,19 @@ func VH_C10_server_readpacket_any_datagram() {
 	s.config.GetCertList = func() ([]*Certificate, error) { return list, nil }
 	s.config.GetCertificate = func(ClientHandshakeInfo) (*Certificate, error) { return list[0], nil }
 	s.config.HandshakeTimeout = time.Second
+	// another client is in the middle of its handshake: its state and its
+	// half-open session are created by the server's own code
 	other := sessAddr4(10, 9, 9, 9, 999)
 	otherHS := hsNewState()
-	s.handshakes[AddressHashKey(other)] = otherHS
+	s.setHandshakeState(other, otherHS)
+	half := s.sessions[otherHS.sessionID]
 	ss := sessState(1)
 	ss.handleState = established
 	ss.readKey, ss.writeKey = &ss.clientToServerKey, &ss.serverToClientKey
+	verifAssume(!hsEq(ss.sessionID[:], otherHS.sessionID[:], 4))
 	s.sessions[ss.sessionID] = ss
 	hsAvoidSID = ss.sessionID
+	hsAvoidSIDs = [][4]byte{otherHS.sessionID}
 	n := verifInt("datagram-len")
 	verifAssume(n >= 0 && n <= 1700)
 	u.in = verifBytes("datagram", 1700)
@@ -511,6 +518,7 @@ func VH_C10_server_readpacket_any_datagram() {
 	_ = s.readPacket(make([]byte, 65535), make([]byte, 65535))
 	verifCover("returned")
 	verifAssert(s.handshakes[AddressHashKey(other)] == otherHS, "C10: a datagram from one address never removes or replaces another address's pending handshake")
+	verifAssert(s.sessions[otherHS.sessionID] == half && half.handle == nil && half.handleState == finishingHandshake, "C10: a half-open session of another client is not completed or replaced by anyone else's datagram")
 	opened := len(sessLog.opens) > 0 && sessLog.opens[len(sessLog.opens)-1].ok
 	if !opened {
 		verifAssert(verifAnd(ss.window == oldWin, verifAnd(ss.handleState == oldState, ss.remoteAddr == oldAddr)), "C10: an established session is untouched by a datagram that did not authenticate for it")
